@@ -721,3 +721,146 @@ def canaries_deref(programs):
         Q.note = "CANARY (oracle designates another Deref field) of " + P.pid
         out.append(Q)
     return out
+
+
+# ---------------------------------------------------------------------------------
+# C10
+INTO_M = {("u8", "u16"): "crate::m::into_a", ("u8", "u32"): "crate::m::into_b", ("u16", "u16"): "crate::m::into_c"}
+
+
+def into_mark(T, fty, use_method, form):
+    m = INTO_M.get((fty, T)) if use_method else None
+    if m:
+        sp = "Into(%s, %s)" % (T, spell_param("method", m, form))
+    else:
+        sp = "Into(%s)" % T
+    return sp, m
+
+
+def into_program(pid, kind, variants, tgts, note, form):
+    traits = ["Into(%s)" % t for t in tgts]
+    type_attrs = None
+    if form % 3 == 1 and len(tgts) > 1:
+        type_attrs = [[t] for t in traits]          # several #[educe(..)] attributes
+    P = Program(pid, kind, "S" if kind == "struct" else "E", variants, traits, focus={"Into"}, note=note,
+                type_attrs=type_attrs, into={"targets": list(tgts)})
+    return P
+
+
+def c10(tier, seed):
+    rnd = random.Random(seed)
+    c = Counter()
+    out = []
+    form = 0
+    # sole field: same type / conversion / method, 1-3 targets
+    for fty, tgts in [("u16", ["u16"]), ("u8", ["u16"]), ("u8", ["u16", "u32"]), ("u8", ["u8", "u16", "u32"]), ("bool", ["u8"]),
+                      ("u16", ["u32", "u16"]), ("u32", ["u32"]), ("u8", ["u32"]), ("u16", ["u64", "u32"])]:
+        for use_m in (False, True):
+            for shape in ("named", "tuple"):
+                form += 1
+                marks, attrs = {}, []
+                for T in tgts:
+                    if use_m and (fty, T) in INTO_M:
+                        sp, m = into_mark(T, fty, True, form)
+                        attrs.append(sp); marks[T] = m
+                    elif form % 2 == 0 and not use_m:
+                        attrs.append("Into(%s)" % T); marks[T] = None      # redundant marker on the sole field
+                if use_m and not marks:
+                    continue
+                f = Field("a" if shape == "named" else None, fty, attrs=attrs, into={"marks": marks})
+                if len(attrs) > 1 and form % 2:
+                    f.sem["_split_attrs"] = True
+                out.append(into_program(c.pid(), "struct", [Variant(None, shape, [f])], tgts,
+                                        "struct sole %s -> %s method=%s" % (fty, tgts, use_m), form))
+    # several fields: marker positions, unique-type selection, same-typed candidates
+    layouts = [(["u8", "u8"], ["u16"]), (["u8", "u8", "u8"], ["u16"]), (["u8", "u16"], ["u16"]), (["u16", "u8", "u32"], ["u32", "u16"]),
+               (["u8", "u8", "u16"], ["u16", "u32"]), (["u16", "u16"], ["u16"]), (["u8", "bool", "u8"], ["u8", "u32"]),
+               (["u32", "u8", "u16"], ["u8", "u16", "u32"])]
+    for tys, tgts in layouts:
+        n = len(tys)
+        # every assignment target -> designated position that is expressible
+        choices = []
+        for T in tgts:
+            ch = []
+            for i in range(n):
+                if tys[i] == T or (tys[i], T) in WIDEN_T:
+                    ch.append((i, "mark"))
+            same = [i for i in range(n) if tys[i] == T]
+            if len(same) == 1:
+                ch.append((same[0], "type"))
+            choices.append(ch)
+        combos = list(itertools.product(*choices))
+        if tier == "quick" and len(combos) > 8:
+            combos = combos[::max(1, len(combos) // 8)][:8]
+        for combo in combos:
+            for use_m in (False, True):
+                form += 1
+                shape = "named" if form % 2 else "tuple"
+                marks = [dict() for _ in range(n)]
+                attrs = [[] for _ in range(n)]
+                any_m = False
+                for T, (i, how) in zip(tgts, combo):
+                    if how == "mark":
+                        sp, m = into_mark(T, tys[i], use_m, form)
+                        any_m |= bool(m)
+                        attrs[i].append(sp); marks[i][T] = m
+                if use_m and not any_m:
+                    continue
+                fs = [Field(NAMES[i] if shape == "named" else None, tys[i], attrs=attrs[i], into={"marks": marks[i]}) for i in range(n)]
+                for f in fs:
+                    if len(f.attrs) > 1 and form % 2:
+                        f.sem["_split_attrs"] = True
+                out.append(into_program(c.pid(), "struct", [Variant(None, shape, fs)], tgts,
+                                        "struct %s targets=%s designation=%s method=%s" % (tys, tgts, combo, use_m), form))
+    # enums: per-variant designation
+    vshapes = [("tuple", ["u8"]), ("named", ["u8"]), ("tuple", ["u8", "u8"]), ("named", ["u16", "u8"]), ("tuple", ["u8", "u16", "u8"]), ("named", ["u8", "u8", "u8"])]
+    combos = [(a,) for a in range(6)] + [(a, b) for a in range(6) for b in range(6) if (a * 7 + b) % 3 == 0] + [(0, 3, 4), (2, 2, 2), (5, 1, 2), (3, 0, 5), (4, 4, 1, 0)]
+    if tier != "quick":
+        combos += [tuple(rnd.randrange(6) for _ in range(rnd.choice((2, 3, 4)))) for _ in range(60)]
+    for ci, combo in enumerate(combos):
+        for tgts in (["u16"], ["u16", "u32"]):
+            form += 1
+            variants = []
+            for vi, si in enumerate(combo):
+                kind, tys = vshapes[si]
+                n = len(tys)
+                marks = [dict() for _ in range(n)]
+                attrs = [[] for _ in range(n)]
+                for ti, T in enumerate(tgts):
+                    cands = [i for i in range(n) if tys[i] == T or (tys[i], T) in WIDEN_T]
+                    i = cands[(ci + vi + ti) % len(cands)]
+                    same = [j for j in range(n) if tys[j] == T]
+                    if n > 1 and not (same == [i] and (ci + vi) % 2 == 0):
+                        sp, m = into_mark(T, tys[i], (form + vi) % 3 == 0, form)
+                        attrs[i].append(sp); marks[i][T] = m
+                    elif n > 1:
+                        pass     # selected through its unique type
+                    elif (form + vi) % 3 == 0 and (tys[i], T) in INTO_M:
+                        sp, m = into_mark(T, tys[i], True, form)
+                        attrs[i].append(sp); marks[i][T] = m
+                variants.append(Variant("V%d" % vi, kind, [Field(NAMES[i] if kind == "named" else None, tys[i], attrs=attrs[i], into={"marks": marks[i]}) for i in range(n)]))
+            out.append(into_program(c.pid(), "enum", variants, tgts, "enum %s targets=%s" % (combo, tgts), form))
+    return out
+
+
+WIDEN_T = {("u8", "u16"), ("u8", "u32"), ("u16", "u32"), ("u8", "u64"), ("u16", "u64"), ("u32", "u64"), ("bool", "u8"), ("bool", "u32"), ("bool", "u16")}
+
+
+def canaries_into(programs):
+    out = []
+    picks = [p for p in programs if p.kind == "struct" and len(p.variants[0].fields) >= 2
+             and len([f for f in p.variants[0].fields if f.ty == "u8"]) >= 2 and any(f.s("into", "marks") for f in p.variants[0].fields)]
+    for P in picks[:2]:
+        Q = P.clone(); Q.pid = P.pid + "_canary"; Q.canary_of = P.pid
+        fs = Q.variants[0].fields
+        src = [f for f in fs if f.s("into", "marks")][0]
+        T = list(src.s("into", "marks"))[0]
+        dst = [f for f in fs if f is not src and f.ty == src.ty]
+        if not dst:
+            continue
+        mk = dict(src.sem["into"]["marks"]); m = mk.pop(T)
+        src.sem["into"] = {"marks": mk}
+        dst[0].sem["into"] = {"marks": dict(dst[0].s("into", "marks", {}), **{T: m})}
+        Q.note = "CANARY (oracle designates a same-typed neighbour) of " + P.pid
+        out.append(Q)
+    return out
